@@ -14,7 +14,33 @@ from .rsparse import LostAnchor
 
 VERIF = os.path.dirname(os.path.dirname(os.path.abspath(__file__)))
 REPO = os.environ.get('VERIF_REPO', '/repo')
-WORK = os.path.join(VERIF, '.work')
+# runs against a scratch copy of the repository (VERIF_REPO=..., used to try changes) get their own work directory, so
+# that they never touch the files of a concurrent run against /repo
+if os.path.realpath(REPO) == '/repo':
+    WORK_REL = '.work'
+else:
+    WORK_REL = os.path.join('.work', 'scratch_' + hashlib.sha1(os.path.realpath(REPO).encode()).hexdigest()[:10])
+WORK = os.path.join(VERIF, WORK_REL)
+
+
+class unit_lock:
+    """exclusive lock per unit and work directory: two checks that share a unit (e.g. C15 and C17 both use U-PARSE and the
+    Kani crate U-DIG) may run at the same time; they take turns on the unit's generated files and build directories"""
+    def __init__(self, name):
+        self.name = name
+
+    def __enter__(self):
+        import fcntl
+        d = os.path.join(WORK, 'locks')
+        os.makedirs(d, exist_ok=True)
+        self.f = open(os.path.join(d, re.sub(r'[^A-Za-z0-9_.-]', '_', self.name) + '.lock'), 'w')
+        fcntl.flock(self.f, fcntl.LOCK_EX)
+        return self
+
+    def __exit__(self, *a):
+        import fcntl
+        fcntl.flock(self.f, fcntl.LOCK_UN)
+        self.f.close()
 ASSUME_PAT = re.compile(r'\b(assume\s*\(|admit\s*\(|external_body|assume_specification|exec_allows_no_decreases_clause|'
                         r'verifier::external\b|external_fn_specification|external_type_specification|verifier::truncate|'
                         r'uninterp\s+spec\s+fn|axiom\s+fn|broadcast\s+axiom)')
@@ -61,6 +87,9 @@ class UnitResult:
 def build_unit(name, sentinel=False, disabled_hints=(), extra_consts=()):
     mod = importlib.import_module('units.' + name.lower().replace('-', '_'))
     u = Unit(name, REPO, VERIF, sentinel=sentinel)
+    u.work_rel = WORK_REL
+    u.work = WORK
+    os.makedirs(WORK, exist_ok=True)
     u.disabled_hints = set(disabled_hints)
     mod.build(u)
     # constants that changed code refers to and the unit description does not list: sliced from the unit's own source files
@@ -134,6 +163,13 @@ def scan_assumptions(text):
 
 
 def verify_unit(name, tier='quick', seed=0, threads=8, disabled_hints=(), depth=0, extra_consts=()):
+    if depth == 0:
+        with unit_lock(name):
+            return _verify_unit(name, tier, seed, threads, disabled_hints, 0, extra_consts)
+    return _verify_unit(name, tier, seed, threads, disabled_hints, depth, extra_consts)
+
+
+def _verify_unit(name, tier='quick', seed=0, threads=8, disabled_hints=(), depth=0, extra_consts=()):
     r = UnitResult(name)
     t0 = time.time()
     os.makedirs(WORK, exist_ok=True)
@@ -207,7 +243,7 @@ def verify_unit(name, tier='quick', seed=0, threads=8, disabled_hints=(), depth=
         # hints are ghost, dropping one can only make the proof harder
         bad = hints_at(text, set(t['line'] for t in tool if t['line']))
         if bad and all(t['line'] and hints_at(text, {t['line']}) for t in tool):
-            return verify_unit(name, tier, seed, threads, tuple(set(disabled_hints) | bad), depth + 1, extra_consts)
+            return _verify_unit(name, tier, seed, threads, tuple(set(disabled_hints) | bad), depth + 1, extra_consts)
         missing = set()
         for t in tool:
             m = re.match(r'cannot find (?:value|function) `([A-Za-z_][A-Za-z0-9_]*)` in this scope', t['message'])
@@ -217,7 +253,7 @@ def verify_unit(name, tier='quick', seed=0, threads=8, disabled_hints=(), depth=
             if m:
                 missing.add('method:' + m.group(1))
         if missing and not (missing <= set(extra_consts)):
-            return verify_unit(name, tier, seed, threads, disabled_hints, depth + 1, tuple(set(extra_consts) | missing))
+            return _verify_unit(name, tier, seed, threads, disabled_hints, depth + 1, tuple(set(extra_consts) | missing))
     if tool or res is None or vr['rc'] not in (0, 1) or (res and res['verification-results'].get('encountered-vir-error')):
         r.status = 'undecided'
         r.reason = 'verus rejected the generated file or crashed: ' + '; '.join(
